@@ -120,8 +120,10 @@ theorem step_core (fuel : Nat) (st st' : St A I) (op : Op) (hinv : Inv A I cfg s
       · exact WF_fls _
       · exact WF_tru _
     · cases b
-      · simp only [specStep]; rw [show den Ptr.fls = fFalse from funext fun a => by simp [den, fFalse]]; rfl
-      · simp only [specStep]; rw [show den Ptr.tru = fTrue from funext fun a => by simp [den, fTrue]]; rfl
+      · have e : den Ptr.fls = fFalse := funext fun a => by simp [den, fFalse]
+        simp [specStep, e]
+      · have e : den Ptr.tru = fTrue := funext fun a => by simp [den, fTrue]
+        simp [specStep, e]
   | var x pol =>
     simp only [step] at hstep
     split at hstep
@@ -303,6 +305,75 @@ theorem run_sound (fuel : Nat) (ops : List Op) (pool : List Ptr) (h : run cfg fu
   exact ⟨by rw [h1, h2], h3.2.2⟩
 
 end
+
+/-! ## non-vacuity: the hypotheses `run … = some pool` are met by real programs -/
+section demo
+open Ptr
+
+/-- right-linear vtree `(0 (1 2))` and balanced vtree `((0 1) (2 3))` -/
+def vtR : VTree := .rightLinear [0, 1, 2]
+def vtB : VTree := .evenSplit [0, 1, 2, 3] 1
+
+/-- a program over three variables that exercises every operation of the language -/
+def progR : List Op := [.var 0 true, .var 1 true, .var 2 false, .and 0 1, .or 3 2, .exist 4 1,
+  .compose 4 0 2, .cond 4 2 true, .xor 0 1, .iff 8 8, .ite 0 1 2, .neg 3, .const false]
+
+/-- the pool it produces on the right-linear vtree (all nodes binary) -/
+def poolR : List Ptr :=
+  [lit 0 true, lit 1 true, lit 2 false,
+   bdd false 0 1 fls (lit 1 true),                                               -- x0 ∧ x1
+   bdd false 0 1 (lit 2 false) (bdd false 1 3 (lit 2 false) tru),                -- (x0 ∧ x1) ∨ ¬x2
+   bdd false 0 1 (lit 2 false) tru,                                              -- ∃x1. #4
+   lit 2 false,                                                                  -- #4[x0 := ¬x2]
+   bdd false 0 1 fls (lit 1 true),                                               -- #4 | x2
+   bdd true 0 1 (lit 1 false) (lit 1 true),                                      -- x0 ⊕ x1
+   tru,                                                                          -- #8 ⇔ #8
+   bdd false 0 1 (lit 2 false) (lit 1 true),                                     -- ite x0 x1 ¬x2
+   bdd true 0 1 fls (lit 1 true),                                                -- ¬(x0 ∧ x1)
+   fls]
+
+example : run ⟨vtR, true⟩ 20 progR = some poolR := by decide +kernel
+example : run ⟨vtR, false⟩ 20 progR = some poolR := by decide +kernel
+
+/-- a program over four variables on the balanced vtree: decision nodes with several elements,
+`and_cartesian`, `and_sub_desc`, `and_prime_desc`, `and_indep`, compression -/
+def progB : List Op := [.var 0 true, .var 1 true, .var 2 true, .var 3 false, .and 0 2, .or 4 1,
+  .iff 0 3, .and 5 6, .exist 7 2, .cond 7 3 true, .xor 5 6, .ite 4 5 6, .compose 7 1 6]
+
+/-- `(x0 ∧ x2) ∨ x1` with compression: three elements, the two primes with sub `⊤` merged -/
+example : (run ⟨vtB, true⟩ 20 progB).map (fun pool => (pool.length, pool[5]?)) =
+    some (13, some (dec false 3
+      [(bdd true 0 1 tru (lit 1 true), lit 2 true),
+       (bdd true 0 1 (lit 1 true) tru, fls),
+       (lit 1 true, tru)])) := by decide +kernel
+
+/-- the same call without compression keeps four elements (the printed primes are pairwise
+exclusive and exhaustive but two subs coincide) -/
+example : (run ⟨vtB, false⟩ 20 progB).map (fun pool => (pool.length, (pool[5]?).map
+    fun p => match p with | dec _ _ es => es.length | _ => 0)) = some (13, some 4) := by
+  decide +kernel
+
+/-- executable instance of the refinement, both settings: the truth table of every returned
+diagram is the truth table of the specified function -/
+example : (run ⟨vtB, true⟩ 20 progB).map (fun pool => pool.map fun p => truthTable 4 (den p)) =
+    (specRun vtB [] progB).map (fun fs => fs.map (truthTable 4)) := by decide +kernel
+example : (run ⟨vtB, false⟩ 20 progB).map (fun pool => pool.map fun p => truthTable 4 (den p)) =
+    (specRun vtB [] progB).map (fun fs => fs.map (truthTable 4)) := by decide +kernel
+
+/-- rejected calls return `none`: label outside the vtree, index outside the pool, no fuel -/
+example : run ⟨vtR, true⟩ 20 [.var 3 true] = none := by decide
+example : run ⟨vtR, true⟩ 20 [.var 0 true, .and 0 1] = none := by decide
+example : run ⟨vtR, true⟩ 0 [.var 0 true, .var 1 true, .and 0 1] = none := by decide
+
+/-- hence (instance of `run_sound`) the specification accepts `progB` and the pools agree entry
+by entry as *functions*, with every returned diagram well formed -/
+example : ∃ pool, run ⟨vtB, true⟩ 20 progB = some pool ∧
+    specRun vtB [] progB = some (pool.map den) ∧ ∀ p ∈ pool, WF vtB p := by
+  cases h : run ⟨vtB, true⟩ 20 progB with
+  | none => exact absurd h (by decide +kernel)
+  | some pool => exact ⟨pool, rfl, run_sound ⟨vtB, true⟩ 20 progB pool h⟩
+
+end demo
 
 #print axioms and_correct
 #print axioms or_correct
